@@ -24,7 +24,16 @@ def analyse(prop: str, tier: str, root: str | None = None) -> Report:
     rep.info["modules_parsed"] = len(repo.modules)
     rep.info["functions_parsed"] = sum(len(m.functions) for m in repo.modules.values())
     rep.info["normalisation"] = {k: v for k, v in repo.normalisation.items() if any(v.values())}
-    mod.run(repo, rep, tier)
+    try:
+        mod.run(repo, rep, tier)
+    except AnalysisError as e:
+        # an anchor that vanished *after* a rule already reported a violation is explained by that violation (e.g. the writer no longer walks
+        # cls.__fields__): report the violation; without one the analysis is broken
+        if not any(not it.ok for it in rep.items):
+            raise
+        rep.notes.append(f"analysis stopped early: {e}")
+        rep.info["aborted"] = str(e)
+        return rep
     rep.enforce_floors()
     if not rep.items:
         raise AnalysisError("no obligations were generated")
@@ -48,7 +57,11 @@ def run_check(prop: str, tier: str, root: str | None = None, quiet: bool = False
             from .selftest import sensitivity_audit
 
             rep.info["sensitivity"] = sensitivity_audit(prop)
-        return finish(rep, seed)
+        rc = finish(rep, seed)
+        if rc == 0 and rep.info.get("aborted"):
+            print(f"ANALYSIS-ERROR property={prop} {rep.info['aborted']}")
+            return 2
+        return rc
     except AnalysisError as e:
         print(f"ANALYSIS-ERROR property={prop} {e}")
         return 2
